@@ -82,6 +82,9 @@ def run_scenarios(run, scs, tag):
     cases = [s.line() for s in scs]
     mo = vlib.run_sharded(drv, cases, run.workdir, tag + "_model")
     io = vlib.run_sharded(client, cases, run.workdir, tag + "_impl")
+    # the extracted client model against Coq's own evaluator on a sample of these histories (trusted base)
+    from .. import vmcheck
+    vmcheck.client_crosscheck(run, cases, mo, limit=(96 if run.tier == "thorough" else 24))
     return cases, mo, io
 
 
